@@ -135,7 +135,13 @@ fn check(id: &str, tier: Tier) -> i32 {
         // the same scenario again with a Trace-level logger installed (a quarter as many runs)
         jobs.push((scn, crate::core::LOG_BIT, (n / 4).max(n.min(4)), " [logging on]"));
     }
+    let mut tainted = false;
     for (scn, base, n, tag) in jobs {
+        if tainted {
+            // a violation that lives in process-wide state of the tree under test has been reported:
+            // whatever this process ran next would only see that state again
+            break;
+        }
         let guard = match tier {
             Tier::Quick => 150.0,
             Tier::Thorough => 3600.0,
@@ -200,6 +206,7 @@ fn check(id: &str, tier: Tier) -> i32 {
             violations += 1;
             println!("  violation in run {} of {}: {} — {}", f.index, scn.name(), f.violation.class, f.violation.detail);
             let orig_len = f.tape.len();
+            let orig_tape = f.tape.clone();
             // A run must be a pure function of its tape. Confirm that on a fresh thread first;
             // if the failure needs what earlier runs of the same worker left behind in the code
             // under test (a static / thread-local), replay those runs first instead of shrinking.
@@ -226,6 +233,28 @@ fn check(id: &str, tier: Tier) -> i32 {
                     println!("  replay in a fresh process reproduced it exactly");
                     println!("VIOLATION property={} replay={}", scn.property(), path.display());
                     exit = 1;
+                }
+                Ok(_) if {
+                    // The failure reproduces inside this process but not in a fresh one: the tree under test
+                    // keeps PROCESS-wide state (a static) that earlier runs of the batch built up. Replay the
+                    // batch's earlier runs first, in index order, in one fresh process.
+                    let base = f.index & crate::core::LOG_BIT;
+                    let n = f.index - base;
+                    n > 0 && n <= 200_000 && {
+                        let pre: Vec<u64> = (base..f.index).collect();
+                        let (p2, _, _) = write_replay(scn.as_ref(), tier, seed, f.index, orig_len, 0, &orig_tape, &pre);
+                        let exe = std::env::current_exe().unwrap();
+                        matches!(Command::new(exe).arg("replay").arg(&p2).output(), Ok(o2) if o2.status.code() == Some(1))
+                    }
+                } =>
+                {
+                    println!("  the failure depends on process-wide state the tree under test keeps from earlier runs; the replay file lists the {} earlier run(s) of the batch as its prelude", f.index - (f.index & crate::core::LOG_BIT));
+                    println!("  replay in a fresh process reproduced it exactly");
+                    println!("VIOLATION property={} replay={}", scn.property(), path.display());
+                    exit = 1;
+                    // the process is tainted from here on: stop exploring
+                    tainted = true;
+                    break;
                 }
                 Ok(o) => {
                     eprintln!(
